@@ -100,6 +100,9 @@ class PersistentMixin(Module):
                 self.persistentData = json.load(f)
         except (FileNotFoundError, ValueError):
             self.persistentData = {}
+        if not isinstance(self.persistentData, dict):
+            # valid JSON, but not what we have written: treat like a corrupt file
+            self.persistentData = {}
         result = {}
         for pname, value in self.persistentData.items():
             try:
